@@ -130,8 +130,14 @@ class DBSpace(data_algebra.data_space.DataSpace):
         assert isinstance(allow_overwrite, bool)
         if key in self.description_map.keys():
             assert allow_overwrite
+            # ops may read the table being replaced: land the result first, then swap
+            tmp_key = self._new_tmp_key()
+            tmp_descr = self.db_handle.create_table(table_name=tmp_key, q=ops)
             self.remove(key)
-        descr = self.db_handle.create_table(table_name=key, q=ops)
+            descr = self.db_handle.create_table(table_name=key, q=tmp_descr)
+            self.db_handle.drop_table(tmp_key)
+        else:
+            descr = self.db_handle.create_table(table_name=key, q=ops)
         self.description_map[key] = descr
         self.eligable_for_auto_drop_list.add(key)
         return descr
